@@ -60,7 +60,25 @@ PROP = dict(
         "quick tier, 20 in the thorough tier, plus hundreds of rejected ones) and they are validated against crypto/* per run; "
         "Ed25519 key expansion is not modelled (the 32-byte Ed25519 seed is compared)",
     ],
-    partial=[],
+    partial=[
+        "'different key / version / workchain / sub-wallet / network give different addresses' is FALSE as literally stated: "
+        "the option changes listed in address_exceptions (v5r1 and v1/v2 ignore the sub-wallet id; v1/v2/v3/v4/highload ignore the "
+        "network id; absent option = explicit default; workchains equal modulo 2^32) do not change the address. What is proved "
+        "(address_distinct) is distinctness over (version, key, int32 workchain, identFields), under local collision-freedom and "
+        "with 'the twelve code hashes are pairwise distinct' as a HYPOTHESIS on codeOf that is never instantiated in Lean "
+        "(checked on the real cells by the oracle go.codes.distinct on every run)",
+        "address_same_all_apis: (1)=(2) is a theorem about option lists (applyOptions: order, repetitions, nil vs explicit "
+        "default workchain); (2)=(3) holds by construction in the model AND in Go (GenerateWalletAddress and "
+        "GenerateStateInit both call newWallet(...).generateStateInit(); the address is the hash of that state init): there is "
+        "no independent computation to compare, the conjunct is definitional; the agreement of the three REAL functions is "
+        "established by the correspondence ops w.addr / w.gwa / w.gsi and the oracle go.addr.apis on every run",
+        "send_params_active_any_fields assumes the plugin / extension dictionary of the data cell decodes (hypothesis on "
+        "readHashmapE); malformed dictionaries are covered by the correspondence runs only; send_record_by_construction is true "
+        "by construction (named so)",
+        "seed_version_check restates seedToPrivateKey / checkSumSeed over an abstract Kdf (HMAC / PBKDF2 are parameters); the "
+        "real primitives are validated by prim.* ops and seed.key lines",
+    ],
+    level="proof",
     level_text="Theorems for all inputs about the Lean model: the address is (int32 workchain, H(state-init "
                "representation)) with the state-init and data layouts of every version; the three public APIs - each "
                "with its own option list, the caller's in any order and with repetitions - compute the same address "
